@@ -227,6 +227,21 @@ Proof.
   repeat split; try lia.
 Qed.
 
+(* ExtractCEA608sei called directly (it repeats the length check) *)
+Lemma extract_cea608_p_total pl :
+  extract_cea608_p pl = Err \/
+  exists m t, extract_cea608_p pl = Ok (m, t) /\ ps_payload m = pl /\ t <= 31 /\ 3 * t <= lenN pl /\
+    match ps_kind m with KCea608 f1 f2 => lenN f1 + lenN f2 <= 2 * t | _ => False end.
+Proof.
+  unfold extract_cea608_p. rewrite ltb8.
+  destruct (Nat.ltb_spec (length pl) 8) as [Hlt|Hge]; [left; reflexivity|].
+  rewrite pslice_to_end by (unfold lenZ; lia). cbn [rbind]. change (Z.to_nat 8) with 8%nat.
+  destruct (parse_cea608_p_total (skipn 8 pl)) as (_ & [->|(f1 & f2 & t & -> & H1 & H2 & H3)]); [left; reflexivity|].
+  right. cbn [rbind]. eexists _, _. split; [reflexivity|]. cbn [ps_payload ps_kind].
+  assert (lenN (skipn 8 pl) <= lenN pl) by (unfold lenN; rewrite skipn_length; lia).
+  repeat split; try lia.
+Qed.
+
 (* ================================================================== DecodeUserDataUnregisteredSEI *)
 Lemma decode_unregistered_p_spec pl : decode_unregistered_p pl = decode_unregistered pl.
 Proof.
